@@ -249,6 +249,7 @@ class Program:
         paths = sorted(pkg.rglob("*.py"))
         if not paths:
             raise AnalysisError(f"no python sources under {pkg}")
+        parsed = []
         for path in paths:
             rel = str(path.relative_to(self.root))
             src = self.overrides.get(rel)
@@ -258,6 +259,15 @@ class Program:
                 tree = ast.parse(src, filename=rel)
             except SyntaxError as e:
                 raise AnalysisError(f"{rel} does not parse: {e}") from e
+            parsed.append((rel, src, tree))
+        # memoised derived state of the graph classes is checked and then
+        # eliminated before anything is indexed (sa/memo.py)
+        from .memo import eliminate, MemoReport
+        if os.environ.get("VERIF_NO_MEMO") == "1":
+            self.memo_report = MemoReport()
+        else:
+            self.memo_report = eliminate({rel: t for rel, _s, t in parsed})
+        for rel, src, tree in parsed:
             set_parents(tree)
             name = rel[len(PKG_REL) + 1: -3].replace("/", ".")
             if name.endswith("__init__"):
